@@ -225,33 +225,21 @@ pub struct AmbientStats {
     pub mismatches: Vec<(Call, String, String)>,
 }
 
-/// Re-evaluate a sample of the pool in an exec'd child with scrambled ambient inputs and compare.
-pub fn ambient_recheck(pool: &Pool, every: usize, work_dir: &str, workers: usize, seed: u64) -> AmbientStats {
-    let mut st = AmbientStats { ran: false, reason: String::new(), calls: 0, compared: 0, mismatches: Vec::new() };
-    let idx: Vec<usize> = (0..pool.entries.len()).filter(|i| every > 0 && i % every == 0).collect();
-    if idx.is_empty() {
-        st.reason = "empty sample".into();
-        return st;
-    }
+/// Evaluate calls in isolation inside a freshly exec'd process with scrambled ambient inputs.
+/// Ok(lines): one encoded outcome (or "novalue ...") per call.
+pub fn ambient_eval(calls: &[Call], work_dir: &str, workers: usize, seed: u64) -> Result<Vec<String>, String> {
     let _ = std::fs::create_dir_all(work_dir);
     let inp = format!("{}/ambient_in_{}.jsonl", work_dir, std::process::id());
     let outp = format!("{}/ambient_out_{}.txt", work_dir, std::process::id());
     let mut text = String::new();
-    for i in &idx {
-        text.push_str(&pool.entries[*i].call.to_json().to_string());
+    for c in calls {
+        text.push_str(&c.to_json().to_string());
         text.push('\n');
     }
     if std::fs::write(&inp, text).is_err() {
-        st.reason = "cannot write the sample".into();
-        return st;
+        return Err("cannot write the sample".into());
     }
-    let exe = match std::env::current_exe() {
-        Ok(e) => e,
-        Err(_) => {
-            st.reason = "current_exe unknown".into();
-            return st;
-        }
-    };
+    let exe = std::env::current_exe().map_err(|_| "current_exe unknown".to_string())?;
     let status = std::process::Command::new(exe)
         .arg("iso-batch")
         .arg(&inp)
@@ -275,18 +263,39 @@ pub fn ambient_recheck(pool: &Pool, every: usize, work_dir: &str, workers: usize
     match status {
         Ok(s) if s.success() => {}
         other => {
-            st.reason = format!("exec'd evaluator failed: {:?}", other);
             let _ = std::fs::remove_file(&outp);
-            return st;
+            return Err(format!("exec'd evaluator failed: {:?}", other));
         }
     }
     let out = std::fs::read_to_string(&outp).unwrap_or_default();
     let _ = std::fs::remove_file(&outp);
-    let lines: Vec<&str> = out.lines().collect();
-    if lines.len() != idx.len() {
-        st.reason = format!("expected {} outcomes, got {}", idx.len(), lines.len());
+    let lines: Vec<String> = out.lines().map(|l| l.to_string()).collect();
+    if lines.len() != calls.len() {
+        return Err(format!("expected {} outcomes, got {}", calls.len(), lines.len()));
+    }
+    Ok(lines)
+}
+
+/// Re-evaluate a sample of the pool in an exec'd child with scrambled ambient inputs and compare.
+pub fn ambient_recheck(pool: &Pool, every: usize, work_dir: &str, workers: usize, seed: u64) -> AmbientStats {
+    let mut st = AmbientStats { ran: false, reason: String::new(), calls: 0, compared: 0, mismatches: Vec::new() };
+    // every `every`-th entry, and every malformed / extreme one (inputs whose handling is most likely to consult
+    // something ambient: locale-style separators, limits, messages)
+    let idx: Vec<usize> = (0..pool.entries.len())
+        .filter(|i| every > 0 && (i % every == 0 || matches!(pool.entries[*i].origin, "malformed" | "extreme_shape" | "readme")))
+        .collect();
+    if idx.is_empty() {
+        st.reason = "empty sample".into();
         return st;
     }
+    let calls: Vec<Call> = idx.iter().map(|i| pool.entries[*i].call.clone()).collect();
+    let lines = match ambient_eval(&calls, work_dir, workers, seed) {
+        Ok(l) => l,
+        Err(e) => {
+            st.reason = e;
+            return st;
+        }
+    };
     st.ran = true;
     st.calls = idx.len();
     for (k, i) in idx.iter().enumerate() {
